@@ -1056,6 +1056,48 @@ func (c *ctx) runCheck(want []byte, n int64, bs int, script []item, cls string) 
 		}
 		break
 	}
+	// the verdict is per stream: once CheckReader has given its terminal result,
+	// every later Read gives the same one (a caller that retries, or an io.ReadAll
+	// after an error, must not see io.EOF for a stream that was rejected)
+	classify := func(err error) string {
+		fc, isF := codeOfErr(err)
+		switch {
+		case err == nil:
+			return "nil"
+		case err == io.EOF:
+			return "eof"
+		case isF:
+			return "err:" + strconv.Itoa(fc)
+		case errcode.IsInvalidArg(err):
+			return "invalid"
+		}
+		return "err:other"
+	}
+	if out != "nil" {
+		for k := 0; k < 3; k++ {
+			m, err := cr.Read(buf)
+			if got := classify(err); got != out || m != 0 {
+				c.fail("checkreader-verdict-not-sticky", fmt.Sprintf(
+					"CheckReader reported %s, Read call %d after that returned (%d, %s) (class %s, declared length %d)", out, k+1, m, got, cls, n))
+				break
+			}
+		}
+		// the same through io.ReadAll: first call ends with the verdict, a second call must not turn it into success
+		cr2 := hashutil.NewSHA256CheckReader(&scriptReader{s: script}, want, n)
+		_, e1 := io.ReadAll(cr2)
+		_, e2 := io.ReadAll(cr2)
+		v1, v2 := classify(e1), classify(e2)
+		if v1 == "nil" {
+			v1 = "eof" // ReadAll reports a clean end as nil
+		}
+		if v2 == "nil" {
+			v2 = "eof"
+		}
+		if v1 != out || v2 != out {
+			c.fail("checkreader-verdict-not-sticky", fmt.Sprintf(
+				"CheckReader reported %s when read call by call, io.ReadAll gave %s and a second io.ReadAll gave %s (class %s, declared length %d)", out, v1, v2, cls, n))
+		}
+	}
 	// direct oracle
 	content, ending, code := scriptOutcome(script)
 	sum := sha256.Sum256(content)
